@@ -19,7 +19,8 @@ from vf.runner import h as _hash
 PROPERTY = "C11"
 LEVEL = "exploration"
 EXHAUSTIVE = False
-RULE = ("scenario families over {subscribe (plain / decorated object, also a falsy one; same or different topics; exact, prefix, "
+RULE = ("scenario families over {subscribe (plain / decorated object, also a falsy one, also 2-3 instances of ONE decorated class "
+        "sharing the subscription ids with first / middle / last instance unsubscribed; same or different topics; exact, prefix, "
         "wildcard; no details / details=True / details_arg=<name>), SUBSCRIBED / ERROR, unsubscribe() from the "
         "application and from inside a handler (of itself, an earlier, a later sibling), UNSUBSCRIBED / ERROR / "
         "router revocation, EVENT (6 payload shapes x 4 detail sets) on held, racing, gone and never-held ids} with "
